@@ -21,6 +21,23 @@ MISSED_FIRST = {
     "C17-M1": "needs an escaped backslash directly followed by '27'; added quoted-string patterns with an escape followed by two free characters",
     "C18-M2": "the retry re-parses a position after a failed attempt; added the obligation that no scanner function is called twice on the same position",
     "C19-M1": "transcripts were compared at the time of each call only; now every value returned earlier is compared again after the other session's later operations, and deliveries of a library-known control with/without value were added",
+    # ---- second round (N): strengthening done after reading the sub-agents' reports, before or while evaluating
+    "C01-N2": "pack() was only ever called on valid messages; added 'pack after a failed pack' units",
+    "C04-N1": "trailing context tags were limited to 12..30; now every number 5..30 that the enclosing type does not define",
+    "C05-N1": "responses were only delivered to clients and requests to servers; every seed is now also delivered to the other kind of session (symbolic windows included)",
+    "C06-N2": "an exception other than ProtocolError ended the accounting silently; it now counts as 'neither returned nor protocol error'",
+    "C09-N1": "deliveries carried one message each; added the same final response twice in one delivery",
+    "C09-N2": "a non-search response carrying a search id was left unspecified; now: if accepted it must not retire the search",
+    "C11-N1": "no scripted scenario had a bind after other traffic; added ops_then_bind / search_then_bind",
+    "C11-N2": "added scenarios that keep using a session after a reassembled message ended exactly on a boundary (also caught by C02)",
+    "C12-N2": "no send ever failed inside the encoder; added a request whose text cannot be encoded",
+    "C13-N1": "hashing free symbolic text (cache key) made the symbolic run intractable; the engine now fails fast there and C13 has fully concrete units plus a scribble-then-reparse probe",
+    "C13-N2": "added tens of thousands of rejected inputs before a valid parse (history independence)",
+    "C14-N2": "raw UTF-8 only appeared in single-item sentences; added trees with multi-octet characters before later items",
+    "C15-N1": "the regex matcher and the z3 regex translation did not model IGNORECASE; Unicode case folding (sre's tables) added to both",
+    "C17-N1": "str.split() on whitespace was not modelled (inconclusive); added",
+    "C18-N2": "a non-terminating decoder never came back to the engine; added a per-path watchdog with confirmation on the real package in a subprocess and termination units for receive()",
+    "C19-N2": "custom types were only delivered whole; added delivery in two pieces",
     "C19-M2": "duplicate registration was only tried with the same class; now a different class reusing a custom or built-in id must be rejected",
 }
 
